@@ -400,7 +400,12 @@ func (m *Machine) acquireHB(th *Thread, s *mutexState) {
 }
 
 func (m *Machine) releaseHB(th *Thread, s *mutexState) {
-	m.vcTick(th)
+	// the release carries the clock of everything done so far; what the thread does AFTER the
+	// release gets a later clock (tick after the copy), so that it is not taken for ordered
+	defer m.vcTick(th)
+	for len(th.vc) <= th.id {
+		th.vc = append(th.vc, 0)
+	}
 	nv := vcCopy(th.vc)
 	// keep the max (for RWMutex readers releasing)
 	for i, c := range s.vc {
@@ -502,19 +507,23 @@ func (m *Machine) chanSend(th *Thread, c *ChanV, v Value) {
 		m.block(th, "send on nil chan", func() bool { return false })
 	}
 	m.yield(th)
-	m.vcTick(th)
+	for len(th.vc) <= th.id {
+		th.vc = append(th.vc, 0)
+	}
 	if c.cap > 0 {
 		m.block(th, "chan send", func() bool { return c.closed || len(c.buf) < c.cap })
 		if c.closed {
 			m.goPanic("send on closed channel")
 		}
 		c.buf = append(c.buf, sendItem{v: copyVal(v), vc: vcCopy(th.vc)})
+		m.vcTick(th)
 		return
 	}
 	if c.closed {
 		m.goPanic("send on closed channel")
 	}
 	it := &sendItem{v: copyVal(v), vc: vcCopy(th.vc)}
+	m.vcTick(th)
 	c.sendq = append(c.sendq, it)
 	m.block(th, "chan send (unbuffered)", func() bool { return it.taken || c.closed })
 	if !it.taken {
@@ -562,9 +571,12 @@ func (m *Machine) chanClose(th *Thread, c *ChanV) {
 	if c.closed {
 		m.goPanic("close of closed channel")
 	}
-	m.vcTick(th)
+	for len(th.vc) <= th.id {
+		th.vc = append(th.vc, 0)
+	}
 	c.closed = true
 	c.closeVC = vcCopy(th.vc)
+	m.vcTick(th)
 }
 
 func (m *Machine) selectOp(fr *Frame, instr *ssa.Select) Value {
@@ -626,12 +638,15 @@ func (m *Machine) selectOp(fr *Frame, instr *ssa.Select) Value {
 		if c.c.closed {
 			m.goPanic("send on closed channel")
 		}
-		m.vcTick(th)
+		for len(th.vc) <= th.id {
+			th.vc = append(th.vc, 0)
+		}
 		if c.c.cap > 0 {
 			c.c.buf = append(c.c.buf, sendItem{v: copyVal(c.v), vc: vcCopy(th.vc)})
 		} else {
 			c.c.sendq = append(c.c.sendq, &sendItem{v: copyVal(c.v), nowait: true, vc: vcCopy(th.vc)})
 		}
+		m.vcTick(th)
 		return m.selectResult(instr, k, nil, false)
 	}
 	v, ok := m.takeFrom(th, c.c)
